@@ -112,7 +112,12 @@ OnEvClose(m, ev) ==
       lostBefore == marks # {} /\ Min(marks) > 1
       q2 == IF marks = {} THEN q ELSE SubSeq(q, Min(marks) + 1, Len(q))
       m1 == Check(m, "C10.close_exactly_once_and_last", IsOpen(m, k), ev)
-      m2 == Check(m1, "C10.nothing_lost_before_close", m.closing \/ m.consumerStopped \/ ~lostBefore, ev)
+      m2a == Check(m1, "C10.nothing_lost_before_close", m.closing \/ m.consumerStopped \/ ~lostBefore, ev)
+      \* a custom transport's channel closes for a reason the scenario gave: an injected read error, a failed or blocked
+      \* transport write, an item that could not be encoded (C13 allows closing then) - never because of what was fed
+      caused == marks # {} \/ ev.ep \in DOMAIN m.wfault \/ ev.ep \in DOMAIN m.blockedAt
+                \/ \E i \in 1..Len(m.calls) : m.calls[i].bad # ""
+      m2 == Check(m2a, "C10.close_event_has_a_cause", m.closing \/ m.kinds[ev.ep + 1] # "custom" \/ caused, ev)
       cq == Get(m.causes, pk, <<>>)
       \* custom transports: the very error the transport returned (the harness injects plain, deadline, EOF, closed ... errors)
       m3 == Check(m2, "C14.close_event_carries_the_cause",
@@ -209,7 +214,11 @@ OnOutTagged(m, ev, f) ==
               m3 == Check(m2, "C11.reaches_only_the_addressed_channels", MayReachWire(m, c, Wire(ev)), ev)
               m4 == Check(m3, "C11.fifo_per_writer_per_channel", c.call > lastCall, ev)
               m5 == IF IsFrameKind(c)
-                    THEN Check(m4, "C11.forwarded_frame_keeps_its_header", f.sys = 77 /\ f.comp = 88 /\ f.seq = tag % 256 /\ f.v = c.fv, ev)
+                    THEN Check(Check(m4, "C11.forwarded_frame_keeps_its_header", f.sys = 77 /\ f.comp = 88 /\ f.seq = tag % 256 /\ f.v = c.fv, ev),
+                               \* ... and is still a valid frame of its own version: checksum right for the bytes sent, v1 payload untruncated
+                               "C11.forwarded_frame_is_valid",
+                               c.bad # "" \/ (f.ck = Checksum(f, CrcExtra(FromGo(Defs[TagDef])))
+                                             /\ (f.v = 2 \/ Len(f.payload) = SizeBase(FromGo(Defs[TagDef])))), ev)
                     ELSE AfterOrig(ApplyClauses(m4, OrigClauses(m4, ev, f, TagDef), ev), ev, f)
           IN [m5 EXCEPT !.outs = Put(@, Wire(ev), Append(prev, [tag |-> tag, g |-> c.g, call |-> c.call, seq |-> ev.seq]))]
 
